@@ -215,6 +215,10 @@ def rule_c(model, rep):
                     tgt = (un, f"{cn}._calc_checksum_builtin", fn)
                 targets.append(tgt)
     targets.append(("passlib.handlers.bcrypt", "_BcryptCommon._norm_digest_args", model.func("passlib.handlers.bcrypt", "_BcryptCommon._norm_digest_args")))
+    # crypt(3) formats of other systems, implemented here without an OS backend (Ultrix/Tru64 crypt16, Solaris sun-md5): C strings end at NUL
+    # there too -- crypt16 builds its DES keys from NUL-padded blocks, so 'abc\0' and 'abc' are the same password unless NUL is refused
+    targets.append(("passlib.handlers.des_crypt", "crypt16._calc_checksum", model.func("passlib.handlers.des_crypt", "crypt16._calc_checksum")))
+    targets.append(("passlib.handlers.sun_md5_crypt", "sun_md5_crypt._calc_checksum", model.func("passlib.handlers.sun_md5_crypt", "sun_md5_crypt._calc_checksum")))
     seen = set()
     for un, q, fn in targets:
         if (un, q) in seen:
